@@ -481,7 +481,17 @@ fn gen_table(rng: &mut Rng, n: usize, method: &str, exact_avg: bool) -> (Vec<u32
     (t, if style == 1 { "dense-ranks" } else { "random" })
 }
 
-fn c17(rng: &mut Rng, _tier: &str, _idx: usize) -> Case {
+fn c17(rng: &mut Rng, _tier: &str, idx: usize) -> Case {
+    if idx == 3 {
+        // more than 65 535 terms (implementation against the harness oracle only): lookups, links,
+        // distances, set operations, common ancestors, sub-ontology and comparison on terms in arena
+        // slots beyond 65 535
+        let mut c = Case::new("big-arena");
+        c.op(format!("bigarena 70000 {}", rng.next()));
+        c.stat("big_arena_terms", 70000);
+        c.nontrivial = true;
+        return c;
+    }
     let mut c = Case::new("linkage");
     // a flat ontology holding the terms of all runs of this case
     let m = rng.range(2, 60) as usize;
